@@ -451,8 +451,16 @@ func GenXZ(r *sim.Rng, big bool) *XZ {
 		if r.Chance(1, 10) {
 			nch = r.Range(5, 12)
 		}
+		maxOps := r.Range(1, 60)
+		if r.Chance(1, 12) {
+			// content of several windows over the smallest dictionary: ring wrap in
+			// the reader, matches at the window edge after the wrap
+			db, ds = 0, 4096
+			nch = r.Range(6, 14)
+			maxOps = r.Range(100, 400)
+		}
 		kinds := RandomLegalKinds(r, nch)
-		cs := Realise(r, kinds, SeqOptions{MaxOpsPerChunk: r.Range(1, 60), MaxRaw: r.Range(1, 200), DictSize: ds, BigChunk: big && r.Chance(1, 4)})
+		cs := Realise(r, kinds, SeqOptions{MaxOpsPerChunk: maxOps, MaxRaw: r.Range(1, 200), DictSize: ds, BigChunk: big && r.Chance(1, 4)})
 		bs := refxz.BlockSpec{Data: cs.Stream, Content: cs.Content, DictByte: db,
 			WithCompSize: r.Chance(1, 3), WithUncomp: r.Chance(1, 3)}
 		if r.Chance(1, 6) {
